@@ -204,7 +204,7 @@ func runShard(b *build, cfg *propCfg, tier string, seed uint64, shard, nshards, 
 		"VERIF_OUT="+outPath, "VERIF_STATUS="+statusPath, "VERIF_CORPUS="+b.corpus,
 		"VERIF_BUDGET_MS="+strconv.Itoa(budgetMS),
 		"GOMAXPROCS=2", "GORACE=halt_on_error=1 exitcode=66 history_size=2",
-		"GOTRACEBACK=all")
+		"GOTRACEBACK=all", "TMPDIR="+b.scratch)
 	cmd.Env = append(cmd.Env, extra...)
 	var stderr bytes.Buffer
 	cmd.Stdout, cmd.Stderr = &stderr, &stderr
@@ -684,7 +684,7 @@ func replayOnce(cfg *propCfg, b *build, rf *replayFile) (*violation, string) {
 	cmd.Dir = dir
 	cmd.Env = append(os.Environ(), "VERIF_PROP="+cfg.ID, "VERIF_TIER="+rf.Tier, "VERIF_SEED="+strconv.FormatUint(rf.Seed, 10),
 		"VERIF_REPLAY="+rp, "VERIF_OUT="+outPath, "VERIF_CORPUS="+b.corpus, "VERIF_STATUS="+filepath.Join(dir, "status.json"),
-		"GOMAXPROCS=2", "GORACE=halt_on_error=1 exitcode=66 history_size=2", "GOTRACEBACK=all")
+		"GOMAXPROCS=2", "GORACE=halt_on_error=1 exitcode=66 history_size=2", "GOTRACEBACK=all", "TMPDIR="+dir)
 	var buf bytes.Buffer
 	cmd.Stdout, cmd.Stderr = &buf, &buf
 	done := make(chan error, 1)
